@@ -45,18 +45,21 @@ def h_validate():
         f = find_method(ctx.program, "src/testcase.rs", "validate")
         return ctx.call(f, [new_ref(args[0]), new_ref(args[1])])
 
-    def mk(status):
+    def mk(status, so=True, se=True, with_exp=False):
+        """so / se: the command wrote to stdout / stderr; with_exp: the test case has an expectation"""
         def setup(ctx):
+            from mir_exec import Opaque
             cfg = sym_tcc(ctx, "c", 0)
-            tc = mk_struct("TestCase", title=StringBuf([]), shell_expression=StringBuf([]), expectations=VecBuf([]),
+            tc = mk_struct("TestCase", title=StringBuf([]), shell_expression=StringBuf([]), expectations=VecBuf([Opaque("expectation")] if with_exp else []),
                            exit_code=SymOpt(ctx.sym_bool("exp_set"), ctx.sym_int("exp", "i32")),
                            line_number=mk_int(1, "usize"), config=cfg)
             payload = {"Code": [ctx.sym_int("code", "i32")], "Timeout": [Agg("Duration", None, [ctx.sym_int("to", "nat")])]}.get(status, [])
-            out = mk_struct("Output", stderr=Agg("OutputStream", None, [VecBuf([SInt(b, "u8") for b in STDERR], "u8")]),
-                            stdout=Agg("OutputStream", None, [VecBuf([SInt(b, "u8") for b in STDOUT], "u8")]),
+            out = mk_struct("Output", stderr=Agg("OutputStream", None, [VecBuf([SInt(b, "u8") for b in (STDERR if se else [])], "u8")]),
+                            stdout=Agg("OutputStream", None, [VecBuf([SInt(b, "u8") for b in (STDOUT if so else [])], "u8")]),
                             exit_code=Agg("ExitStatus", status, payload))
             ctx.notes["has_diff"] = ctx.sym_bool("has_diff")
             ctx.notes["status"] = status
+            ctx.notes["shape"] = (so, se, with_exp)
             return [tc, out]
         return setup
 
@@ -79,10 +82,18 @@ def h_validate():
                 a, e = value.fields[0].fields
                 return z_and([wrong, a.z() == code, e.z() == expected, len(diffed) == 0])
             # any other result requires a correct exit code, exactly one diff of the configured stream, verdict = ¬has_diff
+            so, se, with_exp = ctx.notes["shape"]
+            ws = want_stderr if not isinstance(want_stderr, bool) else z3.BoolVal(want_stderr)
+            if len(diffed) == 0:
+                # without looking at the output only one verdict is right: Ok, when there is nothing expected and the validated stream is empty
+                if not is_ok or with_exp:
+                    return False
+                return z_and([z3.Not(wrong), z3.If(ws, z3.BoolVal(not se), z3.BoolVal(not so))])
             if len(diffed) != 1:
                 return False
-            stream_ok = z3.If(want_stderr if not isinstance(want_stderr, bool) else z3.BoolVal(want_stderr),
-                              z3.BoolVal(diffed[0] == STDERR), z3.BoolVal(diffed[0] == STDOUT))
+            stream_ok = z3.If(ws, z3.BoolVal(diffed[0] == (STDERR if se else [])), z3.BoolVal(diffed[0] == (STDOUT if so else [])))
+            if so == se and not so:
+                stream_ok = z3.BoolVal(True)      # both streams empty: which one was handed over is not observable
             verdict_ok = (z3.Not(has_diff) if is_ok else has_diff)
             if not is_ok and value.fields[0].variant != "MalformedOutput":
                 return False
@@ -92,10 +103,12 @@ def h_validate():
         return not is_ok    # Timeout / Skipped / Unknown: never a success
 
     inputs = [("status=%s" % s, mk(s)) for s in STATUSES]
+    inputs += [("status=Code stdout=%s stderr=%s expectations=%d" % ("written" if so else "empty", "written" if se else "empty", int(we)), mk("Code", so, se, we))
+               for so in (True, False) for se in (True, False) for we in (False, True) if not (so and se and not we)]
     return e2.Harness("validate_verdict", drive, inputs, post, native="validate", judge=None,
                       describe="verdict of validate per exit status / expected code / output_stream / diff verdict",
                       bound="all i32 exit codes and expected codes, expected code absent or present, every output_stream setting, "
-                            "every exit-status variant, both diff verdicts")
+                            "every exit-status variant, both diff verdicts; stdout / stderr written or empty, with / without an expectation")
 
 
 def subprocess_variants():
@@ -168,6 +181,7 @@ def witness_json(model, r):
             "status": status,
             "code": i32(field_of(out, "exit_code").fields[0]) if status == "Code" else None,
             "has_diff": b(r.ctx.notes["has_diff"]),
+            "stdout_written": r.ctx.notes["shape"][0], "stderr_written": r.ctx.notes["shape"][1], "with_expectation": r.ctx.notes["shape"][2] or r.ctx.notes["shape"][:2] == (True, True),
             # every other key of the (fully symbolic) configuration as the witness has it: the verdict must not depend on them
             "config": {k: v for k, v in __import__("props.c16", fromlist=["tcc_to_json"]).tcc_to_json(field_of(tc, "config"), model).items()
                        if k in ("detached", "keep_crlf", "strip_ansi_escaping", "skip_document_code")}}
@@ -196,11 +210,15 @@ def run(pid, tier):
                 if nv.get("Err") != {"InvalidExitCode": [w["code"], exp]}:
                     bad = ("validate:wrong-exit-code-not-reported", "exit code %s (expected %s) → %s" % (w["code"], exp, nv))
             else:
-                want_ok = not w["has_diff"]
+                # the statement on the concrete run: the validated stream's lines against the expectations
+                letter = "e" if w["output_stream"] == "Stderr" else "o"
+                written = w["stderr_written"] if w["output_stream"] == "Stderr" else w["stdout_written"]
+                expectations = [("zzz" if w["has_diff"] else letter)] if w["with_expectation"] else []
+                want_ok = ([letter] if written else []) == expectations
                 if ("Ok" in nv) != want_ok:
-                    bad = ("validate:verdict-vs-diff", "correct exit code, stream %s differences, but verdict %s for %s"
-                           % ("has" if w["has_diff"] else "has no", nv, w))
-                elif nv.get("diffed") != ("stderr" if w["output_stream"] == "Stderr" else "stdout"):
+                    bad = ("validate:verdict-vs-diff", "correct exit code, the validated stream %s its expectations, but verdict %s for %s"
+                           % ("fits" if want_ok else "does not fit", nv, w))
+                elif nv.get("diffed") not in (None, "?", "stderr" if w["output_stream"] == "Stderr" else "stdout"):
                     bad = ("validate:wrong-stream", "output_stream=%s but the %s stream was compared" % (w["output_stream"], nv.get("diffed")))
         elif w["status"] != "Detached" and "Ok" in nv:
             bad = ("validate:no-exit-code-passes:%s" % w["status"],
